@@ -239,8 +239,15 @@ func maxi(a, b int64) int64 {
 	return b
 }
 
+// allocTags: the allocation bound is part of C04 only (other properties' safety clauses are
+// about panics).
 func (ex *Exec) allocTags() []string {
-	return ex.safetyTags
+	for _, t := range ex.safetyTags {
+		if t == "C04" || t == "safety" {
+			return []string{t}
+		}
+	}
+	return nil
 }
 
 func isSigned(t types.Type) bool {
